@@ -150,9 +150,58 @@ pub fn check_step(c: &Case, s: &Step, case: u64, st: &mut Stats) {
 
 pub fn run(cfg: &Cfg) -> Report {
     let n = cfg.scale(1500, 30000);
-    let mut stats = run_honest(cfg, 2, n, &[Frag::Seq, Frag::Stream], |c, case, _rng, st| {
+    let mut stats = run_honest(cfg, 2, n, &[Frag::Seq, Frag::Stream], |c, case, rng, st| {
         for s in &c.history.steps {
             check_step(c, s, case, st);
+        }
+        // failed runs on hostile current data: the peer holds honest, non-empty previous data and
+        // receives damaged bytes (truncated, flipped, spliced, garbage inner data, other versions)
+        let cands: Vec<&Step> = c.history.steps.iter().filter(|s| !s.input.prev.is_empty() && !s.input.cur.is_empty()).collect();
+        for _ in 0..3.min(cands.len()) {
+            let s = cands[rng.below(cands.len())];
+            let cur = &s.input.cur;
+            let damaged: Vec<u8> = match rng.below(6) {
+                0 => cur[..cur.len() / 2].to_vec(),
+                1 => {
+                    let n = 1 + rng.below(64);
+                    rng.bytes(n)
+                }
+                2 => {
+                    let mut b = cur.clone();
+                    let i = rng.below(b.len());
+                    b[i] ^= 1 << rng.below(8);
+                    b
+                }
+                3 => {
+                    let n = 1 + rng.below(40);
+                    let garbage = rng.bytes(n);
+                    proj::wrap_inner(&garbage, "0.9.0", &air::interpreter_version().to_string()).unwrap_or_default()
+                }
+                4 => proj::inner_bytes(cur).ok().and_then(|i| proj::wrap_inner(&i, "0.9.0", "0.1.0").ok()).unwrap_or_default(),
+                _ => crate::tamper::mutate_bytes(rng, cur),
+            };
+            if damaged.is_empty() || damaged == *cur {
+                continue;
+            }
+            let mut input = s.input.clone();
+            input.cur = damaged;
+            input.call_results = CallResultsIn::empty();
+            let out = invoke(&input);
+            st.inc("runs_checked", 1);
+            st.inc("runs_on_damaged_current_data", 1);
+            if !matches!(classify(out.ret_code), CodeClass::Success) {
+                st.inc("failed_runs", 1);
+                st.inc("failed_runs_on_damaged_current_data", 1);
+                st.label("failed_run_codes", &crate::errcodes::table().name(out.ret_code));
+                st.seen("nontrivial_runs", input_hash(&input));
+            }
+            if let Some((sig, what)) = check_outcome(&input, &out, &[], &c.world.particle_id) {
+                // data that survives the damage and merges is judged by the other clauses; only the
+                // failed-run clause is decided here
+                if sig.starts_with("failed-run") || sig.starts_with("code-outside") || sig.starts_with("panic") {
+                    st.violation("C02", &format!("{sig}@damaged-current-data"), &what, case, json!({"step": s.idx, "input": serde_json::to_value(&input).unwrap_or_default(), "history": history_sample(c, 20)}));
+                }
+            }
         }
     });
     // late uncatchable failures: recursive stream folds that run into the stream size limit after
